@@ -1,3 +1,10 @@
 module refmut
 
-go 1.24
+go 1.26.0
+
+require golang.org/x/tools v0.50.0
+
+require (
+	golang.org/x/mod v0.41.0 // indirect
+	golang.org/x/sync v0.23.0 // indirect
+)
